@@ -128,18 +128,18 @@ mut('null-check-dropped', 'File.cpp', [["    if (obj == nullptr) {\n        /* i
     ['C10', 'C09'], ['DN|createObject|null-check', 'S2|unknown-skip'], 'unknown object types are dereferenced')
 
 mut('copy-without-min', 'UncompressedFile.cpp', [["        std::streamsize gcount = std::min(n, static_cast<std::streamsize>(logContainer->uncompressedFileSize - offset));", "        std::streamsize gcount = n;"]],
-    ['C10'], ['B7|UncompressedFile::read'], 'a read spanning two containers copies past the first container buffer')
+    ['C10', 'C15'], ['B7|UncompressedFile::read'], 'a read spanning two containers copies past the first container buffer')
 mut('finder-off-by-one', 'UncompressedFile.cpp', [["            (pos < logContainer->uncompressedFileSize + logContainer->filePosition);", "            (pos <= logContainer->uncompressedFileSize + logContainer->filePosition);"]],
-    ['C10'], ['B7|logContainerContaining|postcondition'], 'a position exactly at the end of a container selects that container: offset == size')
+    ['C10', 'C15'], ['B7|logContainerContaining|postcondition'], 'a position exactly at the end of a container selects that container: offset == size')
 mut('drop-unread-container', 'UncompressedFile.cpp', [["        if ((position > m_tellg) || (position > m_tellp) || (position > m_fileSize)) {", "        if ((position > m_tellp) || (position > m_fileSize)) {"]],
-    ['C12', 'C01'], ['P4|dropOldData'], 'the front container is released although the reader has not passed it')
+    ['C12', 'C01', 'C15'], ['P4|dropOldData'], 'the front container is released although the reader has not passed it')
 mut('nextcontainer-size-mismatch', 'UncompressedFile.cpp', [["            logContainer->uncompressedFile.resize(offset);\n            logContainer->uncompressedFileSize = offset;", "            logContainer->uncompressedFile.resize(offset);"]],
-    ['C10'], ['B3|UncompressedFile::nextLogContainer'], 'buffer shrunk, size field not: later reads index past the buffer')
+    ['C10', 'C15'], ['B3|UncompressedFile::nextLogContainer'], 'buffer shrunk, size field not: later reads index past the buffer')
 
 mut('state-reset-on-read', 'UncompressedFile.cpp', [["        m_rdstate = std::ios_base::eofbit | std::ios_base::failbit;\n    }\n", "        m_rdstate = std::ios_base::eofbit | std::ios_base::failbit;\n    } else\n        m_rdstate = std::ios_base::goodbit;\n"]],
-    ['C08'], ['E4|UncompressedFile::read'], 'a later zero-length read erases the failure of an earlier short read')
+    ['C08', 'C15'], ['E4|UncompressedFile::read'], 'a later zero-length read erases the failure of an earlier short read')
 mut('container-position-default', 'UncompressedFile.cpp', [["            } else {\n                /* everything before the put position has been consumed and dropped */\n                logContainer->filePosition = m_tellp;\n            }\n", "            }\n"]],
-    ['C12'], ['P5|UncompressedFile::write'], 'new container chained from position 0 after the list was emptied')
+    ['C12', 'C15'], ['P5|UncompressedFile::write'], 'new container chained from position 0 after the list was emptied')
 mut('producer-drops-old-data', 'File.cpp', [["    /* copy into uncompressedFile */\n    m_uncompressedFile.write(logContainer);\n", "    /* copy into uncompressedFile */\n    m_uncompressedFile.write(logContainer);\n\n    /* drop old data */\n    m_uncompressedFile.dropOldData();\n"]],
     ['C07'], ['K7|m_uncompressedFile|read'], 'the inflating thread releases containers the decoding thread is about to seek back into')
 mut('timed-queue-wait', 'ObjectQueue.cpp', [["    /* wait for data */\n    tellpChanged.wait(lock, [&] {", "    /* wait for data */\n    tellpChanged.wait_for(lock, std::chrono::milliseconds(500), [&] {"]],
@@ -181,6 +181,11 @@ mut('type-through-reference', 'File.cpp', [["    /* statistics (before the hand-
 mut('drained-accessor', 'File.cpp', [["            file->uncompressedFile2CompressedFile();\n\n            /* check for eof */\n            if (!file->m_uncompressedFile.good())", "            file->uncompressedFile2CompressedFile();\n\n            /* check for eof */\n            if (!file->m_uncompressedFile.good() || (file->m_uncompressedFile.fileSize() == static_cast<std::streamsize>(file->m_uncompressedFile.tellg())))"]],
     ['C14'], ['K11|File::compressedFileWriteThread'], 'output depends on which worker reaches the end of data first')
 
+mut('gcount-not-accumulated', 'UncompressedFile.cpp', [["        m_gcount += gcount;", "        m_gcount = gcount;"]],
+    ['C15'], ['R1|UncompressedFile::read'], 'a read spanning two containers reports only the bytes of the last one')
+mut('short-read-off-by-one', 'UncompressedFile.cpp', [["        n = m_fileSize - m_tellg;", "        n = m_fileSize - m_tellg - 1;"]],
+    ['C15'], ['R2|read|short-at-end'], 'the last byte before the declared end is never delivered')
+
 # ------------------------------------------------------------------ benign refactorings (must stay silent)
 ALL_LAYOUT = ['C01', 'C02', 'C03', 'C10', 'C14']
 ben('reorder-size-terms', 'AppText.cpp', [["        sizeof(source) +\n        sizeof(reservedAppText1) +", "        sizeof(reservedAppText1) +\n        sizeof(source) +"]], ALL_LAYOUT)
@@ -208,7 +213,7 @@ ben('good-check-explicit-false', 'File.cpp', [["    obj->read(m_uncompressedFile
 ben('factory-return-style', 'File.cpp', [["    case ObjectType::CAN_ERROR:\n        obj = new CanErrorFrame();\n        break;", "    case ObjectType::CAN_ERROR:\n        return new CanErrorFrame();"]], ['C17', 'C01'])
 ben('close-statistics-reordered', 'File.cpp', [["        fileStatistics.fileSize = static_cast<uint64_t>(m_compressedFile.tellp());\n        fileStatistics.uncompressedFileSize = currentUncompressedFileSize;\n        fileStatistics.objectCount = currentObjectCount;", "        fileStatistics.objectCount = currentObjectCount;\n        fileStatistics.uncompressedFileSize = currentUncompressedFileSize;\n        fileStatistics.fileSize = static_cast<uint64_t>(m_compressedFile.tellp());"]], ['C05', 'C04', 'C13'])
 ben('stream-read-renamed-locals', 'UncompressedFile.cpp', [["        std::streamoff offset = m_tellg - logContainer->filePosition;\n\n        /* copy data */\n        std::streamsize gcount = std::min(n, static_cast<std::streamsize>(logContainer->uncompressedFileSize - offset));\n        std::copy(logContainer->uncompressedFile.cbegin() + offset, logContainer->uncompressedFile.cbegin() + offset + gcount, s);\n\n        /* remember get count */\n        m_gcount += gcount;\n\n        /* new get position */\n        m_tellg += gcount;\n\n        /* advance */\n        s += gcount;\n\n        /* calculate remaining data to copy */\n        n -= gcount;",
-                                                                   "        std::streamoff off = m_tellg - logContainer->filePosition;\n\n        /* copy data */\n        std::streamsize cnt = std::min(n, static_cast<std::streamsize>(logContainer->uncompressedFileSize - off));\n        std::copy(logContainer->uncompressedFile.cbegin() + off, logContainer->uncompressedFile.cbegin() + off + cnt, s);\n\n        /* remember get count */\n        m_gcount += cnt;\n\n        /* new get position */\n        m_tellg += cnt;\n\n        /* advance */\n        s += cnt;\n\n        /* calculate remaining data to copy */\n        n -= cnt;"]], ['C10', 'C11', 'C07', 'C06'])
+                                                                   "        std::streamoff off = m_tellg - logContainer->filePosition;\n\n        /* copy data */\n        std::streamsize cnt = std::min(n, static_cast<std::streamsize>(logContainer->uncompressedFileSize - off));\n        std::copy(logContainer->uncompressedFile.cbegin() + off, logContainer->uncompressedFile.cbegin() + off + cnt, s);\n\n        /* remember get count */\n        m_gcount += cnt;\n\n        /* new get position */\n        m_tellg += cnt;\n\n        /* advance */\n        s += cnt;\n\n        /* calculate remaining data to copy */\n        n -= cnt;"]], ['C10', 'C11', 'C07', 'C06', 'C15'])
 ben('header-guard-positive-form', 'File.cpp', [["    if (ohb.objectSize < ohb.calculateHeaderSize()) {\n        /* an object cannot be smaller than its header; skipping by such a size would never advance */\n        throw Exception(\"File::uncompressedFile2ReadWriteQueue(): Object size is smaller than the object header.\");\n    }\n",
                                                   "    if (!(ohb.objectSize >= ohb.calculateHeaderSize())) {\n        throw Exception(\"File::uncompressedFile2ReadWriteQueue(): Object size is smaller than the object header.\");\n    }\n"]], ['C10', 'C09', 'C08', 'C01'])
 ben('close-extract-helpers', 'File.cpp', [["void File::close() {\n    /* check if file is open */\n    if (!is_open())\n        return;\n\n    /* read */\n    if (m_openMode & std::ios_base::in) {\n        /* finalize compressedFileThread */\n        m_compressedFileThreadRunning = false;\n        m_compressedFile.close();\n\n        /* finalize uncompressedFileThread */\n        m_uncompressedFileThreadRunning = false;\n        m_uncompressedFile.abort();\n\n        /* abort readWriteQueue */\n        m_readWriteQueue.abort();\n\n        /* finalize compressedFileThread */\n        if (m_compressedFileThread.joinable())\n            m_compressedFileThread.join();\n\n        /* finalize uncompressedFileThread */\n        if (m_uncompressedFileThread.joinable())\n            m_uncompressedFileThread.join();\n    }\n",
@@ -244,7 +249,7 @@ def main():
             open(os.path.join(d, m['name'] + '.patch'), 'w').write(diff)
             m['patch'] = m['name'] + '.patch'
     # refactorings authored independently by sub-agents (benign/agent-*.patch are kept as delivered; `git diff` format, -p1)
-    ext_props = {'f': PIPE + ['C01', 'C10'], 'u': PIPE + ['C01', 'C10', 'C14'], 'c': ALL_LAYOUT + ['C09', 'C04'],
+    ext_props = {'f': PIPE + ['C01', 'C10'], 'u': PIPE + ['C01', 'C10', 'C14', 'C15'], 'c': ALL_LAYOUT + ['C09', 'C04'],
                  'm': ['C01', 'C03', 'C04', 'C05', 'C06', 'C12', 'C14', 'C17']}
     ext = []
     for k_, props_ in ext_props.items():
